@@ -2,6 +2,7 @@ import Proofs.C18Frame
 import Proofs.C18Heap
 import Proofs.C18Snappy
 import Model.CompressRecv
+import Model.CompressSend
 /-!
 # C18 — compression is transparent and only used as negotiated (property theorems)
 
@@ -664,6 +665,96 @@ example : finishLen 9 (9 + 100) true (some (.ok 120)) = .ok 129 ∧
     finishLen 9 (maxFrameSize + 1) true (some (.ok 5)) = .error .tooBig ∧
     readLen (maxFrameSize + 1) (maxFrameSize + 1) true (some (.ok 5)) = .error .tooBig :=
   ⟨by rfl, by rfl, by rfl, by rfl⟩
+
+/-! ### compressor errors on the send path (Model/CompressSend.lean)
+
+FULL STATEMENT: for every request kind, whatever the compressor answers: an Encode error reaches the
+caller as that error, NOTHING of the request is written, its stream is free again and the calls in
+flight are untouched; every other request is on the wire whole, in order, and decodes to its body;
+OPTIONS and STARTUP never call the compressor, so they cannot fail that way. -/
+
+/-- **An Encode error leaves no trace.** For every request kind whose builder keeps the compress bit,
+    on a framer with the bit set, a body that fits and a compressor that refuses it: `exec` returns the
+    codec's error, the frames written and the registered calls are exactly what they were. -/
+theorem C18_send_error_clean (f : Framer) (st : SendSt) (r : Req) (s : Int) (body : Bytes) (c : Codec) (u : Unit)
+    (hr : Req.compressible r) (hfl : f.flags &&& flagCompress = flagCompress)
+    (hcomp : f.comp = some c) (henc : c.enc body = .error u)
+    (hsz : f.headSize + body.length ≤ maxFrameSize) :
+    execSend f st r s body = (st, .failed .codec) := by
+  unfold execSend
+  cases hb : f.buildReq r s body with
+  | ok w =>
+    exfalso
+    rcases f.build_ok _ _ s body w hb with ⟨_, c', z, hc', he', _⟩ | ⟨hn, _⟩
+    · rw [hcomp] at hc'; injection hc' with hc'; subst hc'; rw [henc] at he'; cases he'
+    · exact hn ((headerFlags_bit f r).2 ⟨hfl, hr⟩)
+  | error e =>
+    rcases build_err f _ _ s body e hb with ⟨_, hbig⟩ | ⟨_, _, hn⟩ | ⟨he, _, _⟩
+    · omega
+    · rw [hcomp] at hn; cases hn
+    · subst he; rfl
+
+/-- **OPTIONS and STARTUP never fail because of the compressor** (they never call it). -/
+theorem C18_send_plain_never_codec (f : Framer) (r : Req) (hr : r = .startup ∨ r = .options)
+    (s : Int) (body : Bytes) : f.buildReq r s body ≠ .error .codec := by
+  intro h
+  rcases build_err f _ _ s body _ h with ⟨he, _⟩ | ⟨he, _, _⟩ | ⟨_, hbit, _⟩
+  · cases he
+  · cases he
+  · have := (headerFlags_bit f r).1 hbit
+    rcases hr with rfl | rfl <;> simp [Req.compressible] at this
+
+theorem sendStep_wire (f : Framer) (st : SendSt) (op : SendOp) :
+    (sendStep f st op).wire = st.wire ++ (op.frame f).toList := by
+  cases op with
+  | resp s => simp [sendStep, respond, SendOp.frame]
+  | req r s body =>
+    simp only [sendStep, execSend, SendOp.frame]
+    cases hb : f.buildReq r s body <;> simp [Except.toOption]
+
+theorem foldl_wire (f : Framer) (ops : List SendOp) : ∀ st : SendSt,
+    (ops.foldl (sendStep f) st).wire = st.wire ++ ops.flatMap (fun op => (op.frame f).toList) := by
+  induction ops with
+  | nil => intro st; simp
+  | cons op rest ih => intro st; simp [List.foldl, ih, sendStep_wire, List.append_assoc]
+
+/-- **The wire is exactly the frames of the requests that were built**, for EVERY sequence of requests
+    (any kinds, streams, bodies; Encode failing on any of them) and responses: in order, each whole,
+    nothing from a failed request, nothing else. -/
+theorem C18_send_wire_exact (f : Framer) (ops : List SendOp) :
+    (runSend f ops).wire = ops.flatMap (fun op => (op.frame f).toList) := by
+  have := foldl_wire f ops SendSt.init
+  simpa [runSend, SendSt.init] using this
+
+/-- … and each of them decodes, with the same compressor, to the body of ITS request. -/
+theorem C18_send_wire_decodes (f : Framer) (hv : ValidProto f) (hc : ∀ c, f.comp = some c → c.RoundTrips)
+    (ops : List SendOp) (w : Bytes) (hw : w ∈ (runSend f ops).wire)
+    (hsz : w.length - f.headSize ≤ maxFrameSize) :
+    ∃ r s body, SendOp.req r s body ∈ ops ∧ f.buildReq r s body = .ok w ∧
+      f.decode w = .ok (f.headOf (r.headerFlags f) r.opcode s (w.length - f.headSize), body) := by
+  rw [C18_send_wire_exact, List.mem_flatMap] at hw
+  obtain ⟨op, hop, hwf⟩ := hw
+  cases op with
+  | resp s => simp [SendOp.frame] at hwf
+  | req r s body =>
+    simp only [SendOp.frame, Option.mem_toList] at hwf
+    cases hb : f.buildReq r s body with
+    | error e => simp [hb, Except.toOption] at hwf
+    | ok w' =>
+      simp [hb, Except.toOption] at hwf
+      subst hwf
+      exact ⟨r, s, body, hop, hb, C18_transparent f hv hc _ _ s body w' hb hsz⟩
+
+/-- non-vacuity: three requests on a connection whose compressor refuses bodies starting with 0xEE;
+    the second fails: two frames on the wire, the OPTIONS one uncompressed -/
+example :
+    let c : Codec := { enc := fun x => if x.head? = some 0xEE then .error () else .ok (0xAA :: x),
+                       dec := fun y => .ok (y.drop 1) }
+    let f := newFramer (some c) 4
+    (runSend f [.req .query 1 [1, 2], .req .execute 2 [0xEE, 3], .req .options 3 [], .resp 1]).wire
+      = [[4, 1, 0, 1, 7, 0, 0, 0, 3, 0xAA, 1, 2], [4, 0, 0, 3, 5, 0, 0, 0, 0]] ∧
+    (runSend f [.req .query 1 [1, 2], .req .execute 2 [0xEE, 3], .req .options 3 [], .resp 1]).calls = [3] := by
+  decide
 
 /-! ### negotiation -/
 
